@@ -176,12 +176,12 @@ def answer (z : Zone) (q : List Bytes) (qtype qclass maxAns : Nat) (l : Bytes) :
     let auth0 := hasT cut0 6
     -- DS lives on the parent side of a zone cut
     let (cut, auth) : List Bytes × Bool :=
-      if ¬ auth0 ∧ qtype = 43 then
+      if ¬ auth0 ∧ qtype = 43 ∧ q ≠ [] then
         match cutOf (q.drop 1) with
         | some c => (c, hasT c 6)
         | none => (cut0, false)       -- parent not served: non-authoritative, empty
       else (cut0, auth0)
-    let parentServed := ¬ (¬ auth0 ∧ qtype = 43) ∨ (cutOf (q.drop 1)).isSome
+    let parentServed := ¬ (¬ auth0 ∧ qtype = 43 ∧ q ≠ []) ∨ (cutOf (q.drop 1)).isSome
     let rs : List Rec := if auth then recordsFor recs l q cut else []
     let matching := rs.filter fun r => r.type = 5 ∨ r.type = qtype ∨ qtype = 255
     let plain := (matching.filter fun r => r.type ≠ 1 ∧ r.type ≠ 28).map fun r =>
